@@ -8,7 +8,7 @@ from ..runner import Part
 PROPERTY = 'C13'
 LEVEL = 'model_checking'
 RULE = ('every sequence of <=k symbols over {connect-ok, connect-fail x {no keys, non-token challenge, silent device, transport connect error, device that answers the public key with another challenge}, close, shell, exec_out, '
-        'root, reboot, streaming_shell, creating a streaming_shell generator, draining a generator created earlier, list, stat, pull->existing path, pull->fresh path, pull->BytesIO, push, a push the device rejects, a pull of a missing file, shell with a blank command, pull into a directory that does not exist, and list/stat/pull/push with an empty path} on one object, both twins, executed on '
+        'root, reboot, streaming_shell, creating a streaming_shell generator, draining a generator created earlier, starting a streaming_shell and leaving it suspended, abandoning the most recent suspended one, list, stat, pull->existing path, pull->fresh path, pull->BytesIO, push, a push the device rejects, a pull of a missing file, shell with a blank command, pull into a directory that does not exist, and list/stat/pull/push with an empty path} on one object, both twins, executed on '
         'the real device class; reference = the availability machine (True after connect-ok, False after close / any connect attempt that fails); oracle: operation '
         'while unavailable raises AdbConnectionError, empty path raises DevicePathInvalidError, in both cases zero bytes written to the transport and no local file '
         'created; `available` equals the machine flag after every step; operations while available return the model\'s ground truth. States = (machine flag, transport '
@@ -25,9 +25,9 @@ CONNECTS = {
 }
 FAIL_EXC = {'fail-nokeys': 'DeviceAuthError', 'fail-nontoken': 'InvalidResponseError', 'fail-silent': ('AdbTimeoutError', 'TcpTimeoutException'),
             'fail-transport': 'ConnectionRefusedError', 'fail-rechallenge': ('AdbTimeoutError', 'TcpTimeoutException')}
-OPS = ['shell', 'exec_out', 'root', 'reboot', 'streaming_shell', 'list', 'stat', 'pull', 'pull-path', 'pull-newpath', 'push', 'stream-drain', 'push-rejected', 'pull-missing', 'shell-blank', 'pull-newdir']
+OPS = ['shell', 'exec_out', 'root', 'reboot', 'streaming_shell', 'list', 'stat', 'pull', 'pull-path', 'pull-newpath', 'push', 'stream-drain', 'push-rejected', 'pull-missing', 'shell-blank', 'pull-newdir', 'stream-start']
 BLANK = ['', '  ', '\n']
-NEUTRAL = ['stream-create']
+NEUTRAL = ['stream-create', 'stream-abandon']
 EMPTY = ['list-empty', 'stat-empty', 'pull-empty', 'push-empty', 'push-dir-empty']
 ALPHABET = list(CONNECTS) + ['close'] + OPS + EMPTY + NEUTRAL
 
@@ -51,6 +51,8 @@ def op_for(sym, i):
         return ('shell', BLANK[i % 3], {'decode': False})
     if sym == 'pull-newdir':
         return ('pull', '/f', 'newdir')
+    if sym == 'stream-start':
+        return ('gen-start', 'c', {'decode': False})
     e = ['', b'', None][i % 3]
     if sym == 'push-dir-empty':
         return ('push', ('dir', {'a': b'x' * 10} if i % 2 else {}, 'elsewhere'), ['', b''][i % 2])
@@ -91,6 +93,15 @@ def run_seq(params, ch):
                 r = s.op(('gen-create', 'c', {'decode': False}))
                 if env.host_bytes != hb or env.write_calls != wc:
                     viol.append({'msg': 'step %d creating a streaming_shell generator wrote to the transport' % i})
+            elif sym == 'stream-abandon':
+                # the caller drops a streaming_shell generator it had started (explicit close / garbage collection): whatever that does while
+                # connected, it must not put a single byte on the transport of a device that is not connected
+                r = ('ok', 'no-generator')
+                if s.gens:
+                    g = s.gens.pop()
+                    r = s.run((lambda d: g.close()) if params['twin'] == 'sync' else (lambda d: g.aclose()))
+                if not flag and (env.host_bytes != hb or env.write_calls != wc):
+                    viol.append({'msg': 'step %d: abandoning a started streaming_shell generator on an unavailable device made %d write call(s) (%d bytes accepted) on the transport' % (i, env.write_calls - wc, env.host_bytes - hb)})
             elif sym == 'stream-drain' and getattr(s, 'lazy', None) is None:
                 r = ('ok', 'no-generator')
             else:
@@ -130,6 +141,8 @@ def run_seq(params, ch):
                         r = r[:2]
                     elif sym == 'shell-blank':
                         want = ('ok', b'out:' + BLANK[i % 3].encode())
+                    elif sym == 'stream-start':
+                        want = ('ok', scen.op_expected('streaming_shell', cfg)[1][0])
                     elif sym == 'pull-newdir':
                         want = r           # connected: whether a missing local directory is an error is not C13's business
                     else:
@@ -220,6 +233,10 @@ def parts(tier):
     d = 5 if tier == 'quick' else 6
     sc = [{'seq': list(q), 'twin': t} for q in seqs(small, d) if len(q) == d for t in ('sync', 'async')]
     out.append(Part('deep-sequences', sc, run_seq, what='all sequences of length exactly %d over a reduced 8-symbol alphabet' % d, bound='length %d, 8 symbols' % d))
+    life = ['connect-ok', 'fail-nokeys', 'close', 'stream-start', 'stream-abandon', 'stream-create', 'stream-drain']
+    sc = [{'seq': list(q), 'twin': t} for q in seqs(life, d) if len(q) >= 4 for t in ('sync', 'async')]
+    out.append(Part('stream-lifecycle-sequences', sc, run_seq, what='all sequences of length 4..%d over the 7 symbols that create, start, drain and abandon streaming_shell generators around connect/close' % d,
+                    bound='length 4..%d, 7 symbols' % d))
     out.append(Part('close-race-async', [{'first': 'close', 'op': o} for o in ('shell', 'stat')], run_close_race, {'io-order': None, 'dev-order': None}, min_outcomes=1,
                     what='asyncio: an operation started while another task is inside close(): every I/O completion order', bound='complete'))
     return out
